@@ -127,7 +127,12 @@ fn gen_top(rng: &mut Rng, wordmask: u16, cap_px: u64, max_count: u64) -> TOp {
             if rng.chance(1, 12) {
                 count = rng.range(0, max_count as i64) as u64;
             }
-            let count = count.min(max_count);
+            let mut count = count.min(max_count);
+            // counts around 2^16 and above (16-bit truncations, block-wise loops); only for the
+            // repeat call, whose cost does not depend on a materialised pixel list
+            if r == 4 && !crate::small() && rng.chance(1, 40) {
+                count = *rng.pick(&[65_535u64, 65_536, 65_537, 131_071, 131_072, 131_073, 153_600, 200_001]);
+            }
             if r == 2 {
                 TOp::Pixels { n, px: (0..count.min(5000)).map(|_| gen_px(rng, n, wordmask)).collect() }
             } else if r == 3 {
@@ -225,8 +230,8 @@ fn short(e: &BusEv) -> String {
 
 pub fn c06(args: &Args) -> Acc {
     let mut total = Acc::new();
-    let n = args.n(200_000, 3_000_000);
-    let acc = par_cases(n, args.threads, args.case, |idx, a| {
+    let n = if args.want_stage("main") { args.n(200_000, 3_000_000) } else { 0 };
+    let acc = par_cases(n, args.threads, if n == 0 { None } else { args.case }, |idx, a| {
         let mut rng = Rng::for_case(args.seed, "C06", &args.tier, idx);
         let buf_len = match rng.below(8) {
             0 => 4,
@@ -236,9 +241,15 @@ pub fn c06(args: &Args) -> Acc {
             4 => 64,
             5 => 512,
             6 => rng.range(4, 300) as usize,
-            _ => 12,
+            _ => {
+                if !crate::small() && rng.chance(1, 25) {
+                    *rng.pick(&[4098usize, 16384, 131072, 131074, 196608, 262144])
+                } else {
+                    12
+                }
+            }
         };
-        let max_count = if crate::small() { 60 } else if args.quick() { 3000 } else { 1 << 20 };
+        let max_count = if crate::small() { 60 } else if buf_len > 4096 { 300_000 } else if args.quick() { 3000 } else { 1 << 20 };
         let nops = rng.range(1, 6);
         let mut ops = vec![TOp::Cmd { cmd: 0x2C, params: vec![] }];
         for _ in 0..nops {
@@ -331,6 +342,88 @@ pub fn c06(args: &Args) -> Acc {
         }
     });
     total.merge(acc);
+    // sequences with an injected fault: the faulted call reports it, every later call delivers
+    // exactly its bytes again (caches inside the interface must not survive a failed call)
+    if args.want_stage("faults") {
+        let n = args.n(100_000, 2_000_000);
+        let acc = par_cases(n, args.threads, args.case, |idx, a| {
+            let mut rng = Rng::for_case(args.seed, "C06/faults", &args.tier, idx);
+            let buf_len = *rng.pick(&[4usize, 6, 8, 12, 16, 33, 64]);
+            let effect = *rng.pick(&[Effect::NoEffect, Effect::TookEffect, Effect::Inverted]);
+            let nops = rng.range(4, 9) as usize;
+            // few distinct pixels and counts so that the same fill recurs
+            let pxs = [[0x12u16, 0x34, 0, 0], [0xAB, 0xCD, 0, 0], [0x12, 0x34, 0, 0]];
+            let mut ops: Vec<TOp> = Vec::new();
+            for i in 0..nops {
+                if i % 2 == 0 {
+                    ops.push(TOp::Cmd { cmd: *rng.pick(&[0x2A, 0x2C, 0x2B]), params: (0..rng.range(0, 4)).map(|_| rng.next() as u8).collect() });
+                } else {
+                    let px = *rng.pick(&pxs);
+                    let count = *rng.pick(&[1u32, 2, 3, 5, 8, 16, 17]);
+                    ops.push(if rng.bool() { TOp::Repeat { n: 2, px, count } } else { TOp::Pixels { n: 2, px: (0..count).map(|k| [px[0] ^ k as u16 & 0xFF, px[1], 0, 0]).collect() } });
+                }
+            }
+            let f1 = rng.below(nops as u64 - 1) as usize;
+            let k1 = rng.below(6);
+            let case = || {
+                J::obj().with("spi_buffer_len", buf_len).with("effect", format!("{:?}", effect)).with("calls", ops.iter().map(|o| o.json()).collect::<Vec<_>>()).with("fault_call_op", vec![f1 as u64, k1])
+            };
+            let tl = Tl::new(8);
+            tl.b().effect = effect;
+            let mut buf: Vec<u8> = (0..buf_len).map(|i| 0xA0 | (i as u8 & 0xF)).collect();
+            let mut di = SpiInterface::new(tl.spi(), tl.pin(Src::Dc), &mut buf[..]);
+            let mut h = std::collections::hash_map::DefaultHasher::new();
+            std::hash::Hash::hash(&(buf_len, &ops, f1, k1, effect as u8), &mut h);
+            let mut after_fault = false;
+            let mut faults_hit = 0;
+            for (i, op) in ops.iter().enumerate() {
+                // after an aborted call only a command re-establishes the D/C level
+                if after_fault && !matches!(op, TOp::Cmd { .. }) {
+                    continue;
+                }
+                tl.begin_call(64 + 4 * op.words(), if i == f1 { Some(k1) } else { None });
+                let r = guarded(|| apply_u8(&mut di, op));
+                let faulted = tl.0.borrow().faulted;
+                tl.end_call();
+                let got = strip_delays(tl.take_bus());
+                match r {
+                    Err(c) => {
+                        a.violate("faults", idx, "call/panic-or-budget", format!("call {}: {:?}", i, c), case());
+                        return;
+                    }
+                    Ok(Err(_)) => {
+                        if faulted.is_none() {
+                            a.violate("faults", idx, "call/spurious-error", format!("call {} failed without an injected fault", i), case());
+                            return;
+                        }
+                        faults_hit += 1;
+                        after_fault = true;
+                        continue;
+                    }
+                    Ok(Ok(())) => {
+                        if faulted.is_some() {
+                            a.violate("faults", idx, "call/error-swallowed", format!("call {} returned Ok although {:?} failed", i, faulted), case());
+                            return;
+                        }
+                    }
+                }
+                let mut want = Vec::new();
+                op.expect(&mut want);
+                a.count(if faults_hit > 0 { "calls_checked_after_a_fault" } else { "calls_checked_before_fault" }, 1);
+                if got != want {
+                    let kind = if got.iter().any(|e| matches!(e, BusEv::Wire(_))) { "dc-discipline" } else { "bytes" };
+                    a.violate("faults", idx, format!("{}{}", if faults_hit > 0 { "after-fault/" } else { "" }, kind), format!("call {} (after {} faulted call(s)): {}", i, faults_hit, first_diff(&got, &want)), case());
+                    return;
+                }
+                after_fault = false;
+            }
+            a.case_hash(std::hash::Hasher::finish(&h), faults_hit > 0);
+            if idx < 2 {
+                a.sample(case());
+            }
+        });
+        total.merge(acc);
+    }
     total.notes.insert(
         "rule".into(),
         J::Str("case = (staging buffer length, sequence of send_command / send_pixels / send_repeated_pixel calls on one SpiInterface); distinct = hash; non-trivial = contains a pixel call".into()),
@@ -434,6 +527,108 @@ pub fn c07(args: &Args) -> Acc {
                     return;
                 }
             }
+            if idx < 2 {
+                a.sample(case());
+            }
+        });
+        total.merge(acc);
+    }
+    // (a2) a fault somewhere in a call sequence on one ParallelInterface: the faulted call must
+    // report it, and every *later* call must put exactly its words on the bus again
+    if args.want_stage("words-faults") {
+        let n = args.n(100_000, 2_000_000);
+        let acc = par_cases(n, args.threads, args.case, |idx, a| {
+            let mut rng = Rng::for_case(args.seed, "C07/words-faults", &args.tier, idx);
+            let wide = rng.bool();
+            let mask = if wide { 0xFFFF } else { 0xFF };
+            let effect = *rng.pick(&[Effect::NoEffect, Effect::TookEffect, Effect::Inverted]);
+            let nops = rng.range(3, 8) as usize;
+            let mut ops: Vec<TOp> = Vec::new();
+            for i in 0..nops {
+                // every other call is a command, as in real traffic (a pixel call never comes first
+                // or directly after a faulted call)
+                if i % 2 == 0 {
+                    let plen = rng.range(0, 6) as usize;
+                    // few distinct values, so that words repeat across calls
+                    ops.push(TOp::Cmd { cmd: *rng.pick(&[0x2A, 0x2B, 0x2C, 0x28, 0x00, 0xFF]), params: (0..plen).map(|_| *rng.pick(&[0u8, 0x2A, 0xFF, 0x28, 0x01])).collect() });
+                } else {
+                    ops.push(gen_top(&mut rng, mask, 50, 40));
+                }
+            }
+            // which calls get a fault (one or two, possibly consecutive), and where
+            let f1 = rng.below(nops as u64 - 1) as usize;
+            let two = rng.chance(1, 3);
+            let f2 = if two { (f1 + 1 + rng.below(2) as usize).min(nops - 2) } else { usize::MAX };
+            let k1 = rng.below(24);
+            let k2 = rng.below(24);
+            let case = || {
+                J::obj()
+                    .with("bus_bits", if wide { 16 } else { 8 })
+                    .with("effect", format!("{:?}", effect))
+                    .with("calls", ops.iter().map(|o| o.json()).collect::<Vec<_>>())
+                    .with("fault_call_op", vec![vec![f1 as u64, k1], vec![f2 as u64, k2]])
+            };
+            let tl = Tl::new(if wide { 16 } else { 8 });
+            tl.b().effect = effect;
+            let mut h = std::collections::hash_map::DefaultHasher::new();
+            std::hash::Hash::hash(&(wide, &ops, f1, f2, k1, k2, effect as u8), &mut h);
+            let mut di8 = if !wide { Some(ParallelInterface::new(bus8(&tl), tl.pin(Src::Dc), tl.pin(Src::Wr))) } else { None };
+            let mut di16 = if wide { Some(ParallelInterface::new(bus16(&tl), tl.pin(Src::Dc), tl.pin(Src::Wr))) } else { None };
+            let mut after_fault = false; // the previous call was cut short by a fault
+            let mut faults_hit = 0;
+            for (i, op) in ops.iter().enumerate() {
+                // after an aborted call the D/C line is wherever that call left it: only a command
+                // re-establishes it, so skip pixel calls until then (real traffic does the same)
+                if after_fault && !matches!(op, TOp::Cmd { .. }) {
+                    continue;
+                }
+                let fail = if i == f1 { Some(k1) } else if i == f2 { Some(k2) } else { None };
+                tl.begin_call(64 + 24 * op.words(), fail);
+                let r = guarded(|| match (&mut di8, &mut di16) {
+                    (Some(d), _) => apply_u8(d, op).map_err(|e| format!("{:?}", e)),
+                    (_, Some(d)) => apply_u16(d, op).map_err(|e| format!("{:?}", e)),
+                    _ => unreachable!(),
+                });
+                let faulted = tl.0.borrow().faulted;
+                tl.end_call();
+                let got = strip_delays(tl.take_bus());
+                match r {
+                    Err(c) => {
+                        a.violate("words-faults", idx, "call/panic-or-budget", format!("call {}: {:?}", i, c), case());
+                        return;
+                    }
+                    Ok(Err(_)) => {
+                        if faulted.is_none() {
+                            a.violate("words-faults", idx, "call/spurious-error", format!("call {} failed without an injected fault", i), case());
+                            return;
+                        }
+                        faults_hit += 1;
+                        after_fault = true;
+                        continue;
+                    }
+                    Ok(Ok(())) => {
+                        if faulted.is_some() {
+                            a.violate("words-faults", idx, "call/error-swallowed", format!("call {} returned Ok although {:?} failed", i, faulted), case());
+                            return;
+                        }
+                    }
+                }
+                let mut want = Vec::new();
+                op.expect(&mut want);
+                a.count(if faults_hit > 0 { "calls_checked_after_a_fault" } else { "calls_checked_before_fault" }, 1);
+                if got != want {
+                    a.violate(
+                        "words-faults",
+                        idx,
+                        if faults_hit > 0 { "after-fault/words" } else { "words" },
+                        format!("call {} (after {} faulted call(s)): {}", i, faults_hit, first_diff(&got, &want)),
+                        case(),
+                    );
+                    return;
+                }
+                after_fault = false;
+            }
+            a.case_hash(std::hash::Hasher::finish(&h), faults_hit > 0);
             if idx < 2 {
                 a.sample(case());
             }
@@ -548,8 +743,9 @@ pub fn c07(args: &Args) -> Acc {
         });
         total.merge(acc);
     }
-    // (c) count * N >= 2^32 with an all-equal pixel (strobe-only fast path)
-    if args.want_stage("huge") {
+    // (c) count * N >= 2^32 with an all-equal pixel (strobe-only fast path); not in scaled-down
+    // runs (valgrind)
+    if args.want_stage("huge") && args.scale >= 1.0 {
         let mut a = Acc::new();
         for (n, count) in [(2usize, 1u32 << 31), (4, 1 << 30), (3, 1431655766), (1, u32::MAX)] {
             if args.quick() && n != 2 {
